@@ -28,12 +28,15 @@ import pipegen
 import terms
 
 PID = "C13"
-PROPS = ["PfModel.Props.C13", "PfModel.Props.C13Async", "PfModel.Props.C13Store", "PfModel.Props.C13Kinds"]
+PROPS = ["PfModel.Props.C13", "PfModel.Props.C13Async", "PfModel.Props.C13Store", "PfModel.Props.C13Kinds", "PfModel.Props.C13Proto"]
 DRIVER = "C13"
 RULE = ("mapgen pipelines (1-4 functions, mapped / reducing / internal-axis / generator / plain, 1-3 generations) and pipegen DAGs "
         "(1-5 functions, tuple outputs, renames, defaults, bound); for every invocation of the failure-free run (function, call "
         "index) one run in which exactly that invocation raises, cycling exception class {ValueError(args), RuntimeError(), "
-        "custom picklable class, ValueError subclass} x mode {sequential, thread pool(3), thread pool(1), process pool(2), default "
+        "custom picklable class, ValueError subclass, custom no-argument class, 2 x a protocol class: any builtin / concurrent.futures / "
+        "asyncio / pickle / queue / subprocess exception class, without args / ('boom', tag) / (tag,) / its own constructor signature, the "
+        "classes the runtime and the executors give a meaning to (StopIteration x3, StopAsyncIteration, KeyError, AttributeError, IndexError, "
+        "TimeoutError, CancelledError, FileNotFoundError, ...) drawn 70 % of the time} x mode {sequential, thread pool(3), thread pool(1), process pool(2), default "
         "process pool, map_async} x storage {file_array, dict}; plus runs with 2-3 raising invocations (which one surfaces), a "
         "second failing run on the same pipeline object (stale snapshots), and injections that match nothing (no failure: the "
         "model must equal PF.Map.runMap). Non-trivial = some other invocation runs besides the raising one; distinct by "
@@ -49,7 +52,15 @@ ASSUMPTIONS = ["exception pickling across processes, cloudpickle of ErrorSnapsho
                "process pool) are modelled / counted as `outside-text:*`, never a violation of the property",
                "the re-run after a failure (C13_resume_completes) is compared for file_array storage and sequential re-runs; pipelines using "
                "PipeFunc.internal_shape are skipped (DF-30, C06)",
-               "a pool schedule is fair: every submitted task eventually runs (hypothesis of C13_surface / C13_no_hang)"]
+               "a pool schedule is fair: every submitted task eventually runs (hypothesis of C13_surface / C13_no_hang)",
+               "map_async and a StopIteration: no coroutine can raise one (PEP 479), so the caller of `await` gets the RuntimeError of "
+               "`awaitExn` whose __cause__ is the user function's StopIteration (notes copied); every other clause is judged on the cause "
+               "(counted `language:pep479:*`)",
+               "a class whose own `__reduce__` drops the instance `__dict__` (asyncio.IncompleteReadError, json.JSONDecodeError) loses its note "
+               "in the process pool's pickling: counted `outside-text:class-pickling-drops-notes`, everything but the note still required",
+               "a watchdog verdict (20 s) is confirmed by one repetition alone with a 60 s watchdog before it is reported (machine load)",
+               "a protocol exception is handed to the model as a stand-in exception plus the renaming table of `mapOracle` "
+               "(`C13_class_parametric`): the model never looks at an exception's class"]
 
 IN_PROCESS = ("seq", "thread", "thread1", "async")
 MODE_CYCLE_QUICK = ["seq", "thread", "seq", "async", "thread1", "thread", "seq", "process", "thread", "seq", "async", "thread"]
@@ -126,8 +137,9 @@ def all_masked(v, top=True):
 
 
 # ------------------------------------------------------------------------------------------------ workers
-def run_jobs(ctx, jobs, nworkers):
+def run_jobs(ctx, jobs, nworkers, hard_timeout=None):
     """Run every job's injections in worker processes; returns one list of observations per job."""
+    hard = hard_timeout or HARD_TIMEOUT
     mpctx = mp.get_context("fork")
     results = [[None] * len(j["injections"]) for j in jobs]
     pending = collections.deque((ji, 0) for ji in range(len(jobs)) if jobs[ji]["injections"])
@@ -140,7 +152,7 @@ def run_jobs(ctx, jobs, nworkers):
         proc = mpctx.Process(target=c13_worker.worker_main, args=(child, job), daemon=False)
         proc.start()
         child.close()
-        active[parent] = {"proc": proc, "ji": ji, "next": off, "deadline": time.time() + HARD_TIMEOUT}
+        active[parent] = {"proc": proc, "ji": ji, "next": off, "deadline": time.time() + hard, "hard": hard}
 
     def finish(conn):
         st = active.pop(conn)
@@ -183,7 +195,7 @@ def _pump(jobs, results, pending, active, nworkers, start, finish):
                 continue
             results[st["ji"]][st["next"]] = obs
             st["next"] += 1
-            st["deadline"] = time.time() + HARD_TIMEOUT
+            st["deadline"] = time.time() + st["hard"]
             st["ended_after_hang"] = any(r.get("outcome") == "hang" or r.get("drain_hang") for r in obs.get("runs", []))
             if st["next"] >= total:
                 finish(conn)
@@ -196,6 +208,31 @@ def _pump(jobs, results, pending, active, nworkers, start, finish):
             results[st["ji"]][st["next"]] = {"runs": [{"outcome": "hang", "hard": True, "calls": []}]}
             if st["next"] + 1 < total:
                 pending.append((st["ji"], st["next"] + 1))
+
+
+def is_hang(obs):
+    return isinstance(obs, dict) and any(r.get("outcome") == "hang" or r.get("drain_hang") for r in obs.get("runs", []))
+
+
+MAX_CONFIRM = 4
+
+
+def confirm_hangs(ctx, jobs, results, base):
+    """A watchdog verdict depends on the machine: under heavy load a process pool of `cpu_count` workers may need longer than the
+    watchdog allows.  Every run that ended "hang" is repeated once — alone, after everything else has finished, with three times the
+    watchdog — and only a run that hangs again is reported as one (otherwise the second observation is judged)."""
+    again = [(ji, ii) for ji, obs_list in enumerate(results) for ii, obs in enumerate(obs_list) if is_hang(obs)]
+    for ji, ii in again[:MAX_CONFIRM]:
+        ctx.count("watchdog:hang-rerun")
+        job = dict(jobs[ji])
+        job["injections"] = [jobs[ji]["injections"][ii]]
+        job["soft_timeout"] = 3 * c13_worker.SOFT_TIMEOUT
+        res = run_jobs(ctx, [job], 1, hard_timeout=2 * 3 * c13_worker.SOFT_TIMEOUT + 25)[0][0]
+        if is_hang(res):
+            ctx.count("watchdog:hang-confirmed")
+        else:
+            ctx.count("watchdog:hang-not-confirmed(load)")
+            results[ji][ii] = res
 
 
 # ------------------------------------------------------------------------------------------------ case construction
@@ -213,21 +250,45 @@ def order_by_generations(desc):
     return d, gens
 
 
+def with_rename(fail):
+    """The oracle handed to the model lists a protocol exception (`StopIteration`, `TimeoutError`, …) as a stand-in exception and the
+    request's `rename` table maps the stand-in to the protocol exception: the driver then runs `mapOracle h fails`, the renamed run
+    of `C13_class_parametric` (the model never looks at the class — by theorem)."""
+    out, table = [], []
+    for m in fail:
+        x = m["exn"]
+        if x.get("proto"):
+            tag = 7000 + len(table)
+            table.append([c13_exc.standin_exn(tag), {k: v for k, v in x.items() if k != "proto"}])
+            m = dict(m)
+            m["exn"] = c13_exc.standin_exn(tag)
+        out.append(m)
+    return out, table
+
+
 def map_request(mdesc, fail, mode, extra=()):
     a = mapgen.model_request(mdesc)
-    a["fail"] = list(fail) + list(extra)
+    a["fail"], table = with_rename(list(fail) + list(extra))
+    if table:
+        a["rename"] = table
     a["mode"] = "seq" if mode == "seq" else "async" if mode == "async" else "pool"
     return {"m": "map.fail", "a": a}
 
 
 def call_request(desc, out, kw, fail):
-    return {"m": "call.fail", "a": {"funcs": desc["funcs"], "kw": kw, "out": out, "fail": fail}}
+    fail, table = with_rename(fail)
+    a = {"funcs": desc["funcs"], "kw": kw, "out": out, "fail": fail}
+    if table:
+        a["rename"] = table
+    return {"m": "call.fail", "a": a}
 
 
 def make_target(name, kw, kind, tag):
     """(worker target, model oracle entry) for one raising invocation; kw None = every invocation of the function."""
-    return ([name, None if kw is None else kw_key(kw), kind, tag],
-            {"f": name, "kw": kw, "exn": c13_exc.model_exn(kind, tag)})
+    x = c13_exc.model_exn(kind, tag)
+    if c13_exc.is_proto(kind):
+        x["proto"] = True
+    return ([name, None if kw is None else kw_key(kw), kind, tag], {"f": name, "kw": kw, "exn": x})
 
 
 def colliding(calls, step):
@@ -244,19 +305,52 @@ def colliding(calls, step):
     return extra
 
 
+# the exception kinds of the single-failure runs: the five of the text, then two draws from the protocol classes (`c13_exc.proto_pool`:
+# every builtin / stdlib exception class, the ones the runtime, the executors or storage code give a meaning to — StopIteration first —
+# weighted up).  VERIF_C13_PROTO=<share> overrides the share for experiments.
+PROTO_SHARE = float(os.environ.get("VERIF_C13_PROTO", "0.2857"))
+KIND_CYCLE = list(c13_exc.KINDS) + ["proto", "proto"]
+if "VERIF_C13_PROTO" in os.environ:
+    _np = max(0, min(40, round(len(c13_exc.KINDS) * PROTO_SHARE / max(1e-9, 1 - PROTO_SHARE)))) if PROTO_SHARE < 1 else None
+    KIND_CYCLE = ["proto"] if _np is None else list(c13_exc.KINDS) + ["proto"] * _np
+
+
+def resolve_kind(rng, kind):
+    return c13_exc.pick_proto(rng) if kind == "proto" else kind
+
+
+def any_kind(rng):
+    return c13_exc.pick_proto(rng) if rng.random() < PROTO_SHARE else rng.choice(c13_exc.KINDS)
+
+
+def pick_proto_with_args(rng):
+    """a protocol kind whose args carry the tag (several raising invocations must be told apart by their exception)"""
+    while True:
+        k = c13_exc.pick_proto(rng)
+        if k.endswith((":a", ":v")):
+            return k
+
+
+def outside_kind(rng):
+    """a kind outside the text: the harness's BaseException-only class / unpicklable args / a BaseException-only builtin
+    (`KeyboardInterrupt`, `SystemExit`, `GeneratorExit`, `asyncio.CancelledError`, `BaseExceptionGroup`)"""
+    return c13_exc.pick_proto(rng, base_ok=True) if rng.random() < 0.4 else rng.choice(c13_exc.OUTSIDE_KINDS)
+
+
 def plan_map(ctx, rng, mdesc, calls, modes, k0):
     """Injections for one map pipeline: every invocation once, plus multi-failure, rerun and no-match injections."""
     injs = []
     n = len(calls)
-    combos = [(kind, mode) for kind in c13_exc.KINDS for mode in modes]
+    combos = [(kind, mode) for kind in KIND_CYCLE for mode in modes]
     per_inv = 1 if ctx.tier == "quick" else 3
     k = k0
     for i, (name, kw) in enumerate(calls):
         for _ in range(per_inv):
-            kind = c13_exc.KINDS[k % len(c13_exc.KINDS)]
-            mode = modes[(k // 1) % len(modes)] if ctx.tier == "quick" else combos[(k * 7) % len(combos)][1]
+            kind = KIND_CYCLE[k % len(KIND_CYCLE)]
+            mode = modes[(k // 1) % len(modes)] if ctx.tier == "quick" else combos[(k * 11) % len(combos)][1]
             if ctx.tier != "quick":
-                kind = combos[(k * 7) % len(combos)][0]
+                kind = combos[(k * 11) % len(combos)][0]
+            kind = resolve_kind(rng, kind)
             storage = "dict" if k % 5 == 4 else "file_array"
             t, m = make_target(name, kw, kind, 100 + i)
             injs.append({"what": "single", "targets": [t], "fail": [m], "mode": mode, "storage": storage, "index": i})
@@ -265,12 +359,14 @@ def plan_map(ctx, rng, mdesc, calls, modes, k0):
         for _ in range(2 if ctx.tier == "quick" else 4):
             pick = sorted(rng.sample(range(n), min(n, rng.choice([2, 2, 3]))))
             kinds = rng.sample(c13_exc.KINDS, len(pick))          # distinct classes: at most one without args
+            if rng.random() < PROTO_SHARE + 0.15:                  # … one of them a protocol class (with args: the tags differ)
+                kinds[rng.randrange(len(kinds))] = pick_proto_with_args(rng)
             ts, ms = zip(*[make_target(calls[i][0], calls[i][1], kd, 200 + i) for i, kd in zip(pick, kinds)])
             mode = rng.choice(["thread", "seq", "thread1", "async", "process"] if ctx.tier != "quick" else ["thread", "seq", "thread", "async", "thread1"])
             injs.append({"what": "multi", "targets": list(ts), "fail": list(ms), "mode": mode, "storage": "file_array", "index": pick})
         a, b = rng.sample(range(n), 2)
-        ta, ma = make_target(calls[a][0], calls[a][1], rng.choice(c13_exc.KINDS), 300 + a)
-        tb, mb = make_target(calls[b][0], calls[b][1], rng.choice(c13_exc.KINDS), 400 + b)
+        ta, ma = make_target(calls[a][0], calls[a][1], any_kind(rng), 300 + a)
+        tb, mb = make_target(calls[b][0], calls[b][1], any_kind(rng), 400 + b)
         mode = rng.choice(["seq", "thread"])
         injs.append({"what": "rerun", "targets": [ta], "fail": [ma], "mode": mode, "storage": "file_array", "index": a,
                      "then": {"what": "rerun2", "targets": [tb], "fail": [mb], "mode": mode, "storage": "file_array", "index": b}})
@@ -282,12 +378,14 @@ def plan_map(ctx, rng, mdesc, calls, modes, k0):
     if multi_f:
         pick = sorted(rng.sample(rng.choice(multi_f), 2))
         kinds = rng.sample(c13_exc.KINDS, 2)
+        if rng.random() < PROTO_SHARE + 0.15:
+            kinds[rng.randrange(2)] = pick_proto_with_args(rng)
         ts, ms = zip(*[make_target(calls[i][0], calls[i][1], kd, 250 + i) for i, kd in zip(pick, kinds)])
         injs.append({"what": "multi", "targets": list(ts), "fail": list(ms), "mode": "async", "storage": "file_array", "index": pick})
     # ---- kinds OUTSIDE the property's quantifier: a BaseException-only class, an exception with unpicklable args
     if calls:
         i = rng.randrange(n)
-        kind = rng.choice(c13_exc.OUTSIDE_KINDS)
+        kind = outside_kind(rng)
         mode = rng.choice(["seq", "thread", "async", "thread1"] + (["process"] if ctx.tier != "quick" or rng.random() < 0.3 else []))
         t, m = make_target(calls[i][0], calls[i][1], kind, 900 + i)
         injs.append({"what": "outside", "targets": [t], "fail": [m], "mode": mode, "storage": "file_array", "index": i})
@@ -315,26 +413,28 @@ def plan_map(ctx, rng, mdesc, calls, modes, k0):
 def plan_call(ctx, rng, desc, out, kw, calls):
     injs = []
     for i, name in enumerate(calls):
-        kind = c13_exc.KINDS[(i + len(calls)) % len(c13_exc.KINDS)]
+        kind = resolve_kind(rng, KIND_CYCLE[(i + len(calls)) % len(KIND_CYCLE)])
         entry = rng.choice(["call", "call", "run", "full", "func", "scope", "scope", "nested", "nested_rest", "nested_rest"]) if isinstance(out, str) else "call"
         if entry == "func" and any(k in pipegen.all_outputs(desc) for k, _ in kw):
             entry = "call"
         t, m = make_target(name, None, kind, 500 + i)
         inj = {"what": "single", "targets": [t], "fail": [m], "out": out, "kw": kw, "entry": entry, "mode": "call", "index": i}
+        # nest only functions the call invokes: a NestedPipeFunc asks for the root arguments of ALL its functions, and `kw` holds the
+        # root arguments of `out` only
         if entry == "nested":
-            inj["nest_out"] = [o for f in desc["funcs"] for o in f["outputs"]]
+            inj["nest_out"] = [o for f in desc["funcs"] if f["name"] in calls for o in f["outputs"]]
         if entry == "nested_rest":
-            inj["nest_out"] = [o for f in desc["funcs"] if f["name"] != name for o in f["outputs"]]
+            inj["nest_out"] = [o for f in desc["funcs"] if f["name"] in calls and f["name"] != name for o in f["outputs"]]
         injs.append(inj)
     if calls:
         i = rng.randrange(len(calls))
-        t, m = make_target(calls[i], None, rng.choice(c13_exc.OUTSIDE_KINDS), 550 + i)
+        t, m = make_target(calls[i], None, outside_kind(rng), 550 + i)
         injs.append({"what": "outside", "targets": [t], "fail": [m], "out": out, "kw": kw, "entry": "call", "mode": "call", "index": i})
 
     if len(calls) >= 2:
         a, b = rng.sample(range(len(calls)), 2)
-        ta, ma = make_target(calls[a], None, rng.choice(c13_exc.KINDS), 600 + a)
-        tb, mb = make_target(calls[b], None, rng.choice(c13_exc.KINDS), 700 + b)
+        ta, ma = make_target(calls[a], None, any_kind(rng), 600 + a)
+        tb, mb = make_target(calls[b], None, any_kind(rng), 700 + b)
         injs.append({"what": "rerun", "targets": [ta], "fail": [ma], "out": out, "kw": kw, "entry": "call", "mode": "call", "index": a,
                      "then": {"what": "rerun2", "targets": [tb], "fail": [mb], "out": out, "kw": kw, "entry": "call", "mode": "call", "index": b}})
         ts, ms = zip(*[make_target(calls[i], None, kd, 800 + i) for i, kd in zip(sorted((a, b)), rng.sample(c13_exc.KINDS, 2))])
@@ -416,7 +516,9 @@ def judge_step(ctx, case, kind, step, o, M):
     if entry:
         ctx.count(f"entry:{entry}")
     for t in targets:
-        ctx.count(f"exception:{t[2]}")
+        ctx.count("exception:" + ("protocol" if c13_exc.is_proto(t[2]) else t[2]))
+        if c13_exc.is_proto(t[2]):
+            ctx.count(f"protocol:{t[2].split(':')[1].rpartition('.')[2]}:{mode}")
     if "err" in M:
         raise AssertionError(f"model refuses a generated case: {M} {json.dumps(case)[:600]}")
     if what == "picker":
@@ -450,7 +552,7 @@ def judge_step(ctx, case, kind, step, o, M):
         raise AssertionError(f"model does not raise for a generated injection: {json.dumps(M)[:300]} {json.dumps(case)[:600]}")
     mlog = [[n, canon_kw(kw)] for n, kw in (M["log"] if kind == "map" else M["calls"])]
     ctx.record(case, len(mlog) > 1)
-    outside = [t[2] for t in targets if t[2] in c13_exc.OUTSIDE_KINDS]
+    outside = [t[2] for t in targets if c13_exc.is_outside(t[2])]
     annotated = M.get("annotated", True)          # False: a BaseException-only class (`surface`, C13_kinds)
     # ---- the call returns
     if o["outcome"] == "hang":
@@ -460,13 +562,38 @@ def judge_step(ctx, case, kind, step, o, M):
         ctx.violation(case, f"the executor did not finish its submitted tasks within {c13_worker.SOFT_TIMEOUT:.0f}s after the failure (mode {mode})", impl=o)
         return
     if o["outcome"] == "returned":
-        ctx.violation(case, f"no exception reached the caller although a user function raised (mode {mode})", impl={"calls": o["calls"]}, model=M)
+        ctx.violation(case, f"no exception reached the caller although a user function raised {', '.join(sorted({m['exn']['cls'] for m in step['fail']}))} "
+                      f"(mode {mode})", impl={"calls": o["calls"]}, model=M)
         return
     # ---- same type and args
     exc = o["exc"]
     got = obs_exn_pair(exc)
     injected = {exn_pair(m["exn"]): (t, m) for t, m in zip(targets, step["fail"])}
     lost = False
+    # `map_async` and a StopIteration: no coroutine can raise one (PEP 479), so `await` hands over the RuntimeError of `awaitExn`
+    # (`_result_async`) whose `__cause__` is the user function's exception, notes included (`C13_await_kinds`).  Everything else is
+    # then judged on the cause.
+    stop_pairs = {exn_pair(m["exn"]) for m in step["fail"] if m["exn"].get("stop")}
+    if mode == "async" and stop_pairs:
+        cause = exc.get("cause_exc")
+        if got in stop_pairs:          # cannot happen in Python (PEP 479); never crash on it
+            ctx.violation(case, "map_async: a StopIteration reached the awaiting caller, which PEP 479 rules out", found_input=False,
+                          item="correspondence:C13_await_kinds", impl=exc, model=M.get("awaited"))
+            return
+        if cause is not None and obs_exn_pair(cause) in stop_pairs:
+            aw = M.get("awaited") or {}
+            wrapper = exn_pair(aw["exn"]) if len(targets) == 1 and aw.get("cause") else ("builtins.RuntimeError", None)
+            if exc["cls"] != wrapper[0] or (wrapper[1] is not None and got[1] != wrapper[1]):
+                ctx.violation(case, f"map_async: the StopIteration of the user function arrives wrapped in {exc['cls']}{tuple(exc['args'])!r}; the model's `awaitExn` "
+                              f"wraps it in {wrapper[0]}", found_input=False, item="correspondence:C13_await_kinds", impl=exc, model=aw)
+                return
+            if len(targets) == 1 and (aw.get("cause") is None or exn_pair(aw["cause"]) != obs_exn_pair(cause)):
+                raise AssertionError(f"driver: awaitExn does not name the StopIteration as the cause: {aw}")
+            ctx.count("language:pep479:StopIteration-under-await-arrives-as-RuntimeError-from-cause")
+            got = obs_exn_pair(cause)
+    elif mode == "async" and len(targets) == 1 and "awaited" in M:
+        if M["awaited"].get("cause") is not None or exn_pair(M["awaited"]["exn"]) != exn_pair(M["exn"]):
+            raise AssertionError(f"driver: awaitExn changes an exception that is not a StopIteration: {M['awaited']}")
     if got not in injected:
         if "unpicklable" in outside and mode in ("process", "process_default"):
             # outside the text ("custom picklable classes"): the worker cannot pickle the exception, the pool reports that instead
@@ -504,6 +631,9 @@ def judge_step(ctx, case, kind, step, o, M):
     pf_notes = [n for n in exc["notes"] if "Error occurred while executing function" in n]
     if lost:
         pass
+    elif mode in ("process", "process_default") and not c13_exc.pickle_keeps_notes(surf_t[2]):
+        # the class's own `__reduce__` drops the instance `__dict__`: the pool's pickling (not pipefunc) loses the note
+        ctx.count("outside-text:class-pickling-drops-notes:" + exc["cls"])
     elif not annotated:
         # a BaseException-only class: outside the text; the model (`except Exception`) says neither note nor snapshot
         ctx.count("outside-text:base-exception:" + mode)
@@ -539,7 +669,10 @@ def judge_step(ctx, case, kind, step, o, M):
                           impl={"calls": [c[0] for c in calls], "gens": o["gens"]}, model={"log": [c[0] for c in mlog]})
             return
         if M["gens"] != o["gens"]:
-            raise AssertionError(f"generation order given to the model differs: {M['gens']} vs {o['gens']}")
+            # the order was read from the implementation when the case was built: the implementation changed its mind
+            ctx.violation(case, f"the generations of the pipeline differ between two constructions: {M['gens']} vs {o['gens']}", found_input=False,
+                          item="correspondence:generation-order", impl={"gens": o["gens"]}, model={"gens": M["gens"]})
+            return
     if entry in ("nested", "nested_rest"):
         # the nested pipeline evaluates all its outputs in its own order: only "nothing ran after the failure" is compared
         ctx.count("nested:call-log-not-compared")
@@ -662,7 +795,13 @@ def judge_step(ctx, case, kind, step, o, M):
 def judge(ctx, kind, desc, inj, obs):
     case = {"kind": kind, "desc": desc, "inj": strip_models(inj)}
     if obs is None or "harness_err" in obs:
-        raise AssertionError(f"worker failed: {obs} {json.dumps(case)[:400]}")
+        # the harness must not crash because pipefunc misbehaves: whatever kept the worker from observing the run (an exception out of
+        # pipefunc at a place where none is expected, a dead worker process) is itself the observation
+        ctx.count("harness:run-not-observable")
+        ctx.record(case, False)
+        ctx.violation(case, f"the run could not be observed: {(obs or {}).get('harness_err', 'no observation')}", found_input=False,
+                      item="correspondence:run-not-observable", impl=obs)
+        return
     if "construct_err" in obs:
         ctx.violation(case, f"valid pipeline refused at construction: {obs['construct_err']} {obs.get('msg', '')[:100]}", impl=obs)
         return
@@ -706,6 +845,29 @@ CORPUS_MAP = [
 ]
 
 
+# regressions of the protocol classes (ext3).  Seeded change C13-s3-A: `[f(i) for i in xs]` → `list(map(f, xs))` at the two collection
+# sites of map/_run.py — a StopIteration raised by an element is swallowed (sequential and executor).  DF-C13-03 (fixed): `map_async`
+# awaited the futures through `asyncio.wrap_future` — a StopIteration hung the call for ever, a TimeoutError lost its note,
+# `concurrent.futures.CancelledError` / `InvalidStateError` changed type.  (call index of the failure-free run, kind, mode)
+_STOP = "x:builtins.StopIteration:"
+CORPUS_MAP_PROTO = [
+    (CORPUS_MAP[0][0], [(1, _STOP + "n", "seq"), (1, _STOP + "v", "thread"), (4, _STOP + "a", "thread1"), (0, _STOP + "n", "async"),
+                        (4, _STOP + "v", "async"), (2, _STOP + "v", "process"), (0, "x:builtins.TimeoutError:n", "async"),
+                        (1, "x:builtins.TimeoutError:a", "async"), (1, "x:concurrent.futures._base.CancelledError:a", "async"),
+                        (5, "x:concurrent.futures._base.InvalidStateError:v", "async"), (1, "x:builtins.StopAsyncIteration:n", "async"),
+                        (2, "x:builtins.KeyError:v", "seq"), (3, "x:builtins.AttributeError:a", "thread"), (1, "x:builtins.IndexError:n", "seq"),
+                        (2, "x:builtins.FileNotFoundError:a", "thread"), (1, "x:builtins.GeneratorExit:n", "seq"),
+                        (1, "x:asyncio.exceptions.CancelledError:n", "thread"),
+                        # classes whose own `__reduce__` drops `__notes__`: in-process annotated like any other, across a process pool not
+                        (1, "x:json.decoder.JSONDecodeError:s", "process"), (2, "x:json.decoder.JSONDecodeError:s", "thread"),
+                        (2, "x:asyncio.exceptions.IncompleteReadError:s", "process")]),
+]
+CORPUS_CALL_PROTO = [
+    (CORPUS_CALL[0][0], "o1", [["r0", {"s": "kw:r0"}]], [(0, _STOP + "n", "call"), (1, _STOP + "v", "run"), (1, "x:builtins.KeyError:v", "func"),
+                                                        (0, "x:builtins.AttributeError:n", "scope")]),
+]
+
+
 # ------------------------------------------------------------------------------------------------ run
 def run(ctx):
     rng = ctx.rng
@@ -721,12 +883,16 @@ def run(ctx):
         maps, callsd = [], []
         for desc, rr in CORPUS_MAP:
             maps.append((copy.deepcopy(desc), rr))
-        for _ in range(ctx.n(60, 600)):
+        for desc, plist in CORPUS_MAP_PROTO:
+            maps.append((copy.deepcopy(desc), ("proto", plist)))
+        for _ in range(ctx.n(60, 540)):
             maps.append((mapgen.gen_case(rng, max_funcs=4), None))
         for desc, out, kw, rr in CORPUS_CALL:
             callsd.append((copy.deepcopy(desc), out, kw, rr))
         for desc, out, kw, idx, entry in CORPUS_CALL_INJ:
             callsd.append((copy.deepcopy(desc), out, kw, ("inj", idx, entry)))
+        for desc, out, kw, plist in CORPUS_CALL_PROTO:
+            callsd.append((copy.deepcopy(desc), out, kw, ("proto", plist)))
         for _ in range(ctx.n(40, 400)):
             desc = pipegen.gen_dag(rng)
             try:
@@ -766,7 +932,13 @@ def run(ctx):
                     raise AssertionError(f"model refuses a generated map case: {r}")
                 calls = [(n, kw) for n, kw in r["calls"]]
                 injs, k = plan_map(ctx, rng, d, calls, modes, k)
-                if rr is not None:          # corpus: the recorded rerun pair first
+                if rr is not None and rr[0] == "proto":       # corpus: recorded protocol-class failures, instead of the planned ones
+                    injs = []
+                    for n_, (i, kd, md) in enumerate(rr[1]):
+                        t, m = make_target(calls[i][0], calls[i][1], kd, 100 + n_)
+                        injs.append({"what": "outside" if c13_exc.is_outside(kd) else "single", "targets": [t], "fail": [m], "mode": md,
+                                     "storage": "file_array", "index": i, "resume": md != "process" and not c13_exc.is_outside(kd)})
+                elif rr is not None:          # corpus: the recorded rerun pair first
                     a, b = rr
                     ta, ma = make_target(calls[a][0], calls[a][1], "value", 300 + a)
                     tb, mb = make_target(calls[b][0], calls[b][1], "custom", 400 + b)
@@ -791,7 +963,12 @@ def run(ctx):
                     ctx.skip("call case refused by the model without failures")
                     continue
                 injs = plan_call(ctx, rng, desc, out, kw, r["calls"])
-                if rr is not None and rr[0] == "inj":
+                if rr is not None and rr[0] == "proto":
+                    injs = []
+                    for n_, (i, kd, entry) in enumerate(rr[1]):
+                        t, m = make_target(r["calls"][i], None, kd, 560 + n_)
+                        injs.append({"what": "single", "targets": [t], "fail": [m], "out": out, "kw": kw, "entry": entry, "mode": "call", "index": i})
+                elif rr is not None and rr[0] == "inj":
                     _, idx, entry = rr
                     name = r["calls"][idx]
                     t, m = make_target(name, None, "value", 560 + idx)
@@ -816,6 +993,7 @@ def run(ctx):
         # ---- the real runs, in worker processes under a watchdog
         jobs.sort(key=lambda j: -len(j["injections"]))
         results = run_jobs(ctx, jobs, 6 if ctx.tier == "quick" else 14)
+        confirm_hangs(ctx, jobs, results, base)
         for job, obs_list in zip(jobs, results):
             for inj, obs in zip(job["injections"], obs_list):
                 judge(ctx, job["kind"], job["desc"], inj, obs)
